@@ -251,6 +251,8 @@ def e_unary(name, a):
 
 # ---- symbol registry -------------------------------------------------------------------
 _SYMS = {}          # z3 const name -> (symbol MX, index)
+_FAMILIES = {}      # z3 function name -> role; applications F(k) stand for the k-th member of an
+                    # indexed family of CasADi symbols (unbounded tier: X[k], U[k], ...)
 _uid = itertools.count()
 _consts_cache = {}
 
@@ -275,6 +277,8 @@ def _consts(term):
         if z3.is_const(t) and t.decl().kind() == z3.Z3_OP_UNINTERPRETED:
             out.add(t.decl().name())
         else:
+            if t.decl().kind() == z3.Z3_OP_UNINTERPRETED and t.decl().name() in _FAMILIES:
+                out.add(t.decl().name())
             stack.extend(t.children())
     out = frozenset(out)
     _consts_cache[key] = (term, out)   # keep term alive so ids are not recycled
@@ -357,7 +361,7 @@ def is_numeric_entry(e):
 def has_casadi_symbol(e):
     if isnum(e):
         return False
-    return any(n in _SYMS for n in _consts(e))
+    return any(n in _SYMS or n in _FAMILIES for n in _consts(e))
 
 
 # ----------------------------------------------------------------------------------------
@@ -911,6 +915,68 @@ class MX(Mat):
 
 
 SX = MX   # rockit only mentions SX in class lists
+
+
+class LVec:
+    """vector (row or column) with a symbolic number of entries; get(k) -> entry.
+    Only what the unbounded tier needs: size queries, indexing, slicing, transposition."""
+    __array_priority__ = 10000
+
+    def __init__(self, n, get, row=False):
+        self.n, self.get, self.row = unwrap_int(n), get, row
+
+    @property
+    def shape(self):
+        return (1, self.n) if self.row else (self.n, 1)
+
+    def numel(self): return self.n
+    def size1(self): return self.shape[0]
+    def size2(self): return self.shape[1]
+    def is_row(self): return self.row
+    def is_column(self): return not self.row
+    def is_vector(self): return True
+    def is_scalar(self, *a): return False
+    def is_empty(self, *a): return False
+
+    @property
+    def T(self):
+        return LVec(self.n, self.get, not self.row)
+
+    def _norm(self, k):
+        k = unwrap_int(k)
+        n = self.n
+        if isinstance(k, int) and isinstance(n, int):
+            if k < 0:
+                k += n
+            if not 0 <= k < n:
+                raise RuntimeError("index out of bounds")
+            return k
+        ks = k if isinstance(k, SymInt) else SymInt(z3.IntVal(int(k)))
+        if ks < 0:
+            ks = ks + n
+        if not ((ks >= 0) & (ks < n)):
+            raise RuntimeError("index out of bounds")
+        return unwrap_int(ks)
+
+    def __getitem__(self, k):
+        if isinstance(k, tuple):
+            r, c = k
+            k = c if self.row else r
+        if isinstance(k, slice):
+            if k.step not in (None, 1):
+                raise Undecided("slice step on symbolic vector")
+            lo = 0 if k.start is None else unwrap_int(k.start)
+            hi = self.n if k.stop is None else unwrap_int(k.stop)
+            if isinstance(lo, int) and lo < 0:
+                lo = self.n + lo
+            if isinstance(hi, int) and hi < 0:
+                hi = self.n + hi
+            g = self.get
+            return LVec(unwrap_int(hi - lo), lambda j, lo=lo, g=g: g(unwrap_int(j + lo)), self.row)
+        return MX._raw(1, 1, [entry(self.get(self._norm(k)))])
+
+    def __repr__(self):
+        return "LVec(n=%s)" % (self.n,)
 
 
 # ----------------------------------------------------------------------------------------
@@ -1793,6 +1859,18 @@ class Opti:
 
     def set_domain(self, v, domain):
         self._log.append(("domain", v, domain))
+
+    def family(self, name, n=1, role="x"):
+        """indexed family of decision variables (role 'x') or parameters (role 'p'):
+        returns k -> MX(n x 1) whose entries are the applications name_i(k)"""
+        fs = [z3.Function("%s_%d@opti%d" % (name, i, self._id), z3.IntSort(), R) for i in range(n)]
+        for f in fs:
+            _FAMILIES[f.name()] = role
+            (self._var_names if role == "x" else self._par_names).add(f.name())
+        def member(k):
+            kz = k.z if isinstance(k, SymInt) else z3.IntVal(int(k))
+            return MX._raw(n, 1, [f(kz) for f in fs])
+        return member
 
     # -- problem
     def subject_to(self, *args):
